@@ -491,3 +491,83 @@ Fixpoint pxrun (ideal : bool) (st : list Z) (l : list pxop) : list ob :=
   | [] => []
   | o :: l' => let '(st', r) := pxstep ideal st o in r :: pxrun ideal st' l'
   end.
+
+(* ================= maps with keys of every kind ( map[K]int ) ================= *)
+(* type_go_map.go toKey / goMapGetOwnProperty / goMapDelete + value.go
+   stringToReflectValue: the property name is parsed as a K (strconv.ParseInt /
+   ParseUint with base 0 and the bit size of K, ParseFloat, ParseBool).  A name
+   that does not parse, or is out of K's range, denotes no key at all: reads
+   give undefined, `in` is false; writes and deletes panic with the strconv
+   error (finding: the property would have a TypeError there).
+   Property names are drawn from a few shapes the harness writes literally:
+   a canonical decimal integer, a decimal with .5, "x", "true"/"false",
+   a 0x literal.  Keys are coded as integers: the integer itself, twice the
+   value for float keys, 0/1 for bool, an injective code of the name for strings. *)
+Inductive kkind := KKNum (k : nk) | KKBool | KKStr.
+Inductive kname := NInt (n : Z) | NFrac (twice : Z) | NText | NBool (b : bool) | NHex (n : Z).
+
+Definition key_parse (kk : kkind) (nm : kname) : option Z :=
+  match kk with
+  | KKStr =>
+      Some (match nm with
+            | NInt n => 8 * n | NFrac t => 8 * t + 1 | NText => 2
+            | NBool b => if b then 11 else 3 | NHex n => 8 * n + 4
+            end)
+  | KKBool =>
+      match nm with
+      | NBool b => Some (if b then 1 else 0)
+      | NInt n => if n =? 0 then Some 0 else if n =? 1 then Some 1 else None
+      | _ => None
+      end
+  | KKNum k =>
+      if is_float k then
+        match nm with NInt n => Some (2 * n) | NFrac t => Some t | _ => None end
+      else
+        match nm with
+        | NInt n => if in_range k n then Some n else None
+        | NHex n => if (0 <=? n) && in_range k n then Some n else None
+        | _ => None
+        end
+  end.
+
+Inductive kop :=
+| KGet (nm : kname) | KSet (nm : kname) (v : src) | KHas (nm : kname) | KDel (nm : kname)
+| KCount | KSum                                  (* Object.keys(m).length; sum of m[k] over for-in *)
+| KGGet (key : Z) | KGSet (key v : Z) | KGDel (key : Z) | KGDump.   (* Go side; dump = sum of (key + 1000) * value *)
+
+Definition kstep (ideal : bool) (kk : kkind) (m : list (Z * Z)) (o : kop) : list (Z * Z) * ob :=
+  match o with
+  | KGet nm => (m, match key_parse kk nm with
+                   | Some k => match m_get m k with Some v => o_num v | None => o_undef end
+                   | None => o_undef
+                   end)
+  | KHas nm => (m, o_bool (match key_parse kk nm with
+                           | Some k => match m_get m k with Some _ => true | None => false end
+                           | None => false
+                           end))
+  | KSet nm v =>
+      match key_parse kk nm with
+      | None => (m, o_err (if ideal then 6 else 9))
+      | Some k => match conv_elem ideal v with
+                  | inr c => (m, o_err c)
+                  | inl x => (m_set m k x, o_ok)
+                  end
+      end
+  | KDel nm =>
+      match key_parse kk nm with
+      | None => (m, o_err (if ideal then 6 else 9))
+      | Some k => (m_del m k, o_bool true)
+      end
+  | KCount => (m, o_num (Z.of_nat (length m)))
+  | KSum => (m, o_num (fold_right (fun kv acc => snd kv + acc) 0 m))
+  | KGGet k => (m, match m_get m k with Some v => o_num v | None => o_undef end)
+  | KGSet k v => (m_set m k v, o_ok)
+  | KGDel k => (m_del m k, o_ok)
+  | KGDump => (m, o_num (fold_right (fun kv acc => (fst kv + 1000) * snd kv + acc) 0 m))
+  end.
+
+Fixpoint krun (ideal : bool) (kk : kkind) (m : list (Z * Z)) (l : list kop) : list ob :=
+  match l with
+  | [] => []
+  | o :: l' => let '(m', r) := kstep ideal kk m o in r :: krun ideal kk m' l'
+  end.
